@@ -136,6 +136,31 @@ def run(world, rep, tier, only=None):
     fix_problem_rules(world, prog, rep, "C02.c")
     exit_status_rules(world, prog, rep, "C02.c")
 
+    # ------------------------------------------------------------------ C02.d multiply-claimed blocks always invalidate
+    # Every message of passes 1B-1D has no prompt; what makes `-n` (or a declined clone/delete) end with a non-zero
+    # verdict is the un-mark at the end of pass 1D's per-inode loop.  Which inodes the loop may skip is part of the
+    # contract: only the bad-blocks inode and the resize inode, whose shared blocks are legitimate.
+    p1d = prog.fn("pass1d", "e2fsck/pass1b.c")
+    um = calls_to(p1d, "ext2fs_unmark_valid")
+    rep.floor("C02.d un-mark in pass1d", len(um), 1)
+    ALLOWED_SKIPS = {"EXT2_BAD_INO", "EXT2_RESIZE_INO"}
+    for i, u in enumerate(um):
+        inobased = []
+        for (bid, t, a, lp) in silent_lits(p1d, prog, u):
+            if "ino" in T.vars_in(a) and not T.calls(a):
+                inobased.append((t, a))
+        bad = []
+        for (t, a) in inobased:
+            a0 = T.strip(a)
+            ok = isinstance(a0, dict) and a0.get("k") == "b" and a0.get("o") == "==" and not t and \
+                bool(T.macros(a) & ALLOWED_SKIPS) and not (T.macros(a) - ALLOWED_SKIPS - {"EXT2_FIRST_INODE"})
+            if not ok:
+                bad.append(("" if t else "!") + T.pp(a)[:50])
+        rep.ob("C02.d", site(p1d, "only the bad-blocks and resize inodes are exempt from the verdict#%d" % i),
+               bool(inobased) and not bad,
+               "inode-number conditions under which a multiply-claimed inode does not reach the un-mark: %s; not allowed: %s" %
+               ([("" if t else "!") + T.pp(a)[:40] for t, a in inobased], bad))
+
 
 def _aborts_after(prog, fn, n):
     """every path from the call to the function's exit passes ctx->flags |= E2F_FLAG_ABORT or a noreturn call"""
